@@ -216,7 +216,7 @@ func runGob(m *model.Model, s *ob.Set) {
 		}
 	}
 	if nAcc < 4 {
-		model.Fatal("GOB: only %d buffer accesses found in GobDecode", nAcc)
+		model.Blind("GOB: only %d buffer accesses found in GobDecode", nAcc)
 	}
 
 	// ---------------- collect the decoded values
@@ -264,7 +264,10 @@ func runGob(m *model.Model, s *ob.Set) {
 		}
 	}
 	if len(decoded) < 5 {
-		model.Fatal("GOB: only %d stores of decoded values found in GobDecode", len(decoded))
+		model.Blind("GOB: only %d stores of decoded values found in GobDecode", len(decoded))
+		if len(decoded) == 0 {
+			return
+		}
 	}
 	maxEnum := map[int]int64{}
 	for f, names := range map[int][]string{m.F.Mode: {"ToNearestEven", "ToNearestAway", "ToZero", "AwayFromZero", "ToNegativeInf", "ToPositiveInf"}, m.F.Acc: {"Below", "Exact", "Above"}, m.F.Form: {"zero", "finite", "inf"}} {
